@@ -467,12 +467,12 @@ _LATER = {
     "C03": " Also: every third e2ereply run lists its addresses in a --file next to the subnet; SYN scans run under background noise from before the process starts (RST/ACK/FIN segments of the scanned hosts, SYN+ACKs of hosts that are not scanned); capture_filter_applied_to_every_frame (the attached program is run on every frame read: D30).",
     "C05": " Also: gen and arpcache (the destination MAC a request gets from the cache, 4- and 16-byte address forms), pipeline (the frame as the socket receives it).",
     "C06": " Also: engine (the result hand-off with a slow consumer, > 3 x capacity), race pass (proc, engine), reply-flood runs of e2e from a race-enabled build of sx, capture_source_* and capture_filter_applied_to_every_frame theorems.",
-    "C07": " Also: e2eerr (packet scan with an ARP cache that knows some hosts and no gateway: frames and 'no destination MAC' records counted at the process boundary, also with a lagging stderr reader), a run with more than 5 s per packet in e2eslow, errno-valued write failures in pipeline, error_records_written_through (regenerated facts about the error sink), e2eapp, race pass (pipeline, gen).",
+    "C07": " Also: C07_steps_bounded / C07_uncancelled_run_ends (Proofs/ConcPacketTerm: a potential every step other than cancel strictly decreases, in every state — every execution of the packet pipeline, under any schedule, has at most 22*|requests| + 4*|receiver errors| + 4*N + 13 such steps; an uncancelled execution that cannot be extended is Terminated, so with C07_final_full everything has been written); e2eerr (packet scan with an ARP cache that knows some hosts and no gateway: frames and 'no destination MAC' records counted at the process boundary, also with a lagging stderr reader), a run with more than 5 s per packet in e2eslow, errno-valued write failures in pipeline, error_records_written_through (regenerated facts about the error sink), e2eapp, race pass (pipeline, gen).",
     "C08": " Also: plain_one_line + tag jplain of component json (the plain-text records of arp / tcp / icmp / socks results, byte for byte through the real logger); bad lines between the good ones of every pairs file, 24-32 thousand bad lines (errflood), results and error records into one stream (2>&1: every line one whole record), a stderr reader that lags, error_records_written_through, race pass (engine).",
     "C09": " Also: a /21 with six slow servers among refused neighbours (records name those servers), 1000 filtered hosts with -w 1000, runs under the smallest `ulimit -n` the process starts with, race pass (socks).",
     "C10": " Also: a third of the scripted servers compress when asked (Accept-Encoding), runs under the smallest `ulimit -n`.",
     "C11": " Also: e2earp feeds the ARP scan's stdout to `sx tcp syn` as -a <file>, on a pipe, as `< file` and as `-a -`; e2earpkill (the scan ended by SIGKILL / SIGTERM while printing: stdout still loads and holds answers given); race pass (arpcache, proc, gen).",
-    "C12": " Also: C12_return_exists / C12_full / C12_quiescent_returned (a returning continuation of return-path steps only, no longer than the rank, exists from every cancelled reachable state; a cancelled state without an enabled return-path step has returned); blocking_ops_accounted (inventory of EVERY channel operation / Take / Sleep / Wait / Lock / go statement of the tree, regenerated with go/types, equal to the hand-classified table of Spec/Blocking.lean), rate_limited_probe_interruptible (D28), stdin_wait_only_in_read (D29), capture_source_* (lock protocol); e2esigint with slow rates (1/m, 10/h), target lists on a stdin / named pipe that stays open; race pass (cancel, pipeline).",
+    "C12": " Also: C12_packet_steps_bounded (packet pipeline: at most 22*|requests| + 4*|receiver errors| + 4*N + 13 steps in all, cancelled anywhere or never; potential function, no fairness); C12_return_exists / C12_full / C12_quiescent_returned (a returning continuation of return-path steps only, no longer than the rank, exists from every cancelled reachable state; a cancelled state without an enabled return-path step has returned); blocking_ops_accounted (inventory of EVERY channel operation / Take / Sleep / Wait / Lock / go statement of the tree, regenerated with go/types, equal to the hand-classified table of Spec/Blocking.lean), rate_limited_probe_interruptible (D28), stdin_wait_only_in_read (D29), capture_source_* (lock protocol); e2esigint with slow rates (1/m, 10/h), target lists on a stdin / named pipe that stays open; race pass (cancel, pipeline).",
     "C13": " Also: e2eapp (bad lines in pairs files, errflood) and e2eerr at the process boundary; iface; trailing-data lines in gen; error_records_written_through.",
     "C14": " Also: juniqstall (a writer that stalls while hosts are sighted again), race pass (json, proc).",
     "C16": " Also: appdelay (stdout = /dev/full, text mode: the run still lasts its exit delay), e2eapp.",
